@@ -96,9 +96,17 @@ Definition float_binimpl (name : str) : fl -> fl -> option fl :=
   | _ => fun _ _ => None
   end.
 
+(* prefix operators: the example's negation, and the operators the correspondence run adds to copies of the
+   example to vary the set of prefix operators (harness/c19.go c19PrefixImpl: + identity, ! and = "is zero",
+   ^ square, ~ successor, * double) *)
 Definition float_unimpl (name : str) : fl -> option fl :=
   match name with
   | [45] => fun a => Some (fl_neg a)
+  | [43] => fun a => Some a
+  | [33] | [61] => fun a => Some (fl_of_bool (is_zero a))
+  | [94] => fun a => chk2 fl_mul a a
+  | [126] => fun a => chk2 fl_add a (FFin 1 0)
+  | [42] => fun a => chk2 fl_mul a (FFin 1 1)
   | _ => fun _ => None
   end.
 
@@ -149,6 +157,21 @@ Definition float_cfg : gcfg fl :=
       float_tobool (if ex_float_has_number then Some parse_dec else None).
 
 Definition float_args : list str := [[97]; [98]].
+
+(* the float table with another set of prefix operators (registration order) *)
+Definition float_var_cfg (unary : list str) : gcfg fl :=
+  mkG (g_ops fl float_cfg) (map float_unop unary) (g_consts fl float_cfg) (g_funcs fl float_cfg)
+      (g_tobool fl float_cfg) (g_num fl float_cfg).
+
+(* Parser.Parse stores for every prefix operator the position of the binary operator of the same spelling
+   (unaryEntry.opPos, -1 = none); the parser model computes it at each use ([op_pos] in Syn/Parse.v parse_unary).
+   The regenerated tables of the real parsers - the two examples and every prefix-operator variant the run
+   uses - must agree with the model for EVERY prefix operator. *)
+Definition prefix_tables_ok (tbls : list (list str * list (str * Z))) : bool :=
+  forallb (fun t => forallb (fun up => match op_pos (fst t) (fst up) with
+                                       | Some k => (Z.of_nat k =? snd up)%Z
+                                       | None => (snd up =? -1)%Z
+                                       end) (snd t)) tbls.
 
 (* the model operators agree with the real ones on every regenerated sample on which the model is defined *)
 Definition opt_fl_agrees (m : option fl) (o : option fl) : bool :=
